@@ -563,6 +563,22 @@ def mutateSubsectionOps {τ : Type} (c : FastOps) (pstart pend : Nat) (t : τ)
 
 /-! ### `new_from_ops` / `clear_and_install_ops` -/
 
+/-- one variable of one step of `clear_and_install_ops`: accumulator = (container, last_vars,
+last_rels, previous_for_vars collected so far) -/
+def installVarStep (p : Nat)
+    (acc : FastOps × List (Option Nat) × List (Option Nat) × List (Option PRel)) (vr : Nat × Nat) :
+    FastOps × List (Option Nat) × List (Option Nat) × List (Option PRel) :=
+  let c := acc.1
+  let lv := acc.2.1
+  let lr := acc.2.2.1
+  let v := vr.1
+  let relv := vr.2
+  let lastTup := (zipOpt ((lv[v]?).join) ((lr[v]?).join)).map (fun x => (⟨x.1, x.2⟩ : PRel))
+  let c' := match lastTup with
+    | some pr => c.setNextFor pr.p pr.relv (some ⟨p, relv⟩)
+    | none => c.setVarEnd v (some (⟨p, relv⟩, ⟨p, relv⟩))
+  (c', lv.set v (some p), lr.set v (some relv), acc.2.2.2 ++ [lastTup])
+
 /-- one step of the fold in `clear_and_install_ops` -/
 def installStep (st : FastOps × Option Nat × List (Option Nat) × List (Option Nat)) (po : Nat × Op) :
     FastOps × Option Nat × List (Option Nat) × List (Option Nat) :=
@@ -572,26 +588,13 @@ def installStep (st : FastOps × Option Nat × List (Option Nat) × List (Option
   let op := po.2
   let c1 := match lastP with
     | some lp => c.setNextP lp (some p)
-    | none => { c with pEnds := some (p, p) }
-  let r := op.vars.zipIdx.foldl
-    (fun (acc : FastOps × List (Option Nat) × List (Option Nat) × List (Option PRel)) (vr : Nat × Nat) =>
-      let c := acc.1
-      let lv := acc.2.1
-      let lr := acc.2.2.1
-      let v := vr.1
-      let relv := vr.2
-      let lastTup := zipOpt ((lv[v]?).join) ((lr[v]?).join)
-      let c' := match lastTup with
-        | some (lp, lrel) => c.setNextFor lp lrel (some ⟨p, relv⟩)
-        | none => c.setVarEnd v (some (⟨p, relv⟩, ⟨p, relv⟩))
-      (c', lv.set v (some p), lr.set v (some relv),
-        acc.2.2.2 ++ [lastTup.map (fun x => (⟨x.1, x.2⟩ : PRel))]))
-    (c1, st.2.2.1, st.2.2.2, [])
+    | none => c.setPEnds (some (p, p))
+  let r := op.vars.zipIdx.foldl (installVarStep p) (c1, st.2.2.1, st.2.2.2, [])
   let c2 := r.1
   let node : Node :=
     { op := op, previousP := lastP, nextP := none, previousForVars := r.2.2.2,
       nextForVars := List.replicate op.vars.length none }
-  ({ c2 with ops := c2.ops.set p (some node), n := c2.n + 1 }, some p, r.2.1, r.2.2.1)
+  ((c2.setOp p (some node)).setN (c2.n + 1), some p, r.2.1, r.2.2.1)
 
 /-- `clear_and_install_ops` (input must be strictly increasing in `p`, asserted by the Rust) -/
 def clearAndInstallOps (c : FastOps) (l : List (Nat × Op)) : FastOps :=
